@@ -128,22 +128,37 @@ def declarations(text):
         out.append(toks[i])
         i += 1
     toks = out
+    # declarations; a declaration nested in a FUNCTION / PROCEDURE / RULE is taken out of its
+    # parent and compared on its own (exppp sorts them by name, which changes no declaration)
+    OPEN = ("function", "procedure", "rule", "entity", "type", "constant")
     decls = []
+    stack = []
     cur = []
-    depth = 0
     i = 0
     while i < len(toks):
         t = toks[i]
-        cur.append(t)
-        if t in ("function", "procedure", "rule", "entity", "type", "constant") and (not cur[:-1] or depth == 0):
-            depth += 1 if len(cur) == 1 or depth > 0 or True else 0
-        if t in END_KW and t != "end_schema":
-            depth -= 1
-        if depth <= 0 and t == ";" and cur and (cur[0] in ("schema", "use", "reference") or (len(cur) > 1 and cur[-2] in END_KW)):
-            decls.append(tuple(cur))
-            cur = []
-            depth = 0
+        if t in OPEN:
+            if stack:
+                parent = stack[-1]
+                pname = (parent[3] if parent[0] == "nested-in" else parent[1]) if len(parent) > 3 or (parent[0] != "nested-in" and len(parent) > 1) else "?"
+                stack.append(["nested-in", pname, t])
+            else:
+                if cur:
+                    decls.append(tuple(cur))
+                    cur = []
+                stack.append([t])
+        elif stack:
+            stack[-1].append(t)
+            if t == ";" and len(stack[-1]) > 1 and stack[-1][-2] in END_KW:
+                decls.append(tuple(stack.pop()))
+        else:
+            cur.append(t)
+            if t == ";" and cur[0] in ("schema", "use", "reference"):
+                decls.append(tuple(cur))
+                cur = []
         i += 1
+    for rest in stack:
+        decls.append(tuple(rest))
     if cur:
         decls.append(tuple(cur))
     return sorted(decls)
@@ -211,7 +226,7 @@ def rich_schema(r, k, trees):
           "  CASE a OF", "    1 : acc := 1;", "    2, 3 : BEGIN", "      acc := 2;", "      acc := acc * 3;", "    END;", "    OTHERWISE : acc := acc;", "  END_CASE;",
           "  REPEAT i := 1 TO 10 BY 2;", "    acc := acc + i;", "    IF acc > 100 THEN", "      ESCAPE;", "    END_IF;", "  END_REPEAT;",
           "  REPEAT WHILE acc > 10;", "    acc := acc DIV 2;", "  END_REPEAT;", "  REPEAT UNTIL acc MOD 2 = 0;", "    acc := acc + 1;", "    SKIP;", "  END_REPEAT;",
-          "  ALIAS bb FOR b;", "    acc := acc + SIZEOF (bb);", "  END_ALIAS;", "  INSERT (t, acc, 0);", "  RETURN (acc + ABS (a) + c_int);", "END_FUNCTION;", ""]
+          "  ALIAS bb FOR b;", "    acc := acc + SIZEOF (bb);", "  END_ALIAS;", "  INSERT (t, acc, 0);", "  t := [b[1] : a, 5 : a + 1, 6 : SIZEOF (b), 7 : 2];", "  RETURN (acc + ABS (a) + c_int);", "END_FUNCTION;", ""]
     L += ["PROCEDURE p_one (VAR n : INTEGER);", "  n := n + 1;", "END_PROCEDURE;", ""]
     L += ["RULE r_one FOR (base_e);", "  LOCAL", "    cnt : INTEGER := 0;", "  END_LOCAL;", "  cnt := SIZEOF (base_e);", "WHERE", "  wr1 : cnt >= 0;", "  cnt < 1000000;", "END_RULE;", ""]
     L += ["END_SCHEMA;"]
